@@ -345,6 +345,7 @@ class Executor(object):
         s.string_cache = {}
         s.trace_mem = None
         s.hooks = {}
+        s.alloc_sites = False
         s.races_seen = set()
         s.stop_on_assert = False
         s.reached = {}
